@@ -89,7 +89,10 @@ type BlockShape struct {
 }
 
 type Shape struct {
-	Epoch       uint64       `json:"epoch"`
+	Epoch uint64 `json:"epoch"`
+	// HeaderWide: the CAR header is valid CBOR that go-car accepts but not the encoding go-car itself writes
+	// (version 1 as the two-byte integer 0x18 0x01: "header-wide-int")
+	HeaderWide  string       `json:"header_wide,omitempty"`
 	RootSha512  bool         `json:"root_sha512,omitempty"`  // epoch node CID uses sha2-512: longer CAR header
 	SubsetEvery int          `json:"subset_every,omitempty"` // blocks per subset (0 = one subset)
 	Blocks      []BlockShape `json:"blocks"`
@@ -432,6 +435,25 @@ func Generate(shape Shape) *Truth {
 	var hdr bytes.Buffer
 	if err := carv1.WriteHeader(&carv1.CarHeader{Roots: []cid.Cid{root}, Version: 1}, &hdr); err != nil {
 		panic(err)
+	}
+	if shape.HeaderWide != "" {
+		// canonical payload: a2 65 "roots" 81 <tag42 cid> 67 "version" 01
+		canon := hdr.Bytes()
+		_, n := binary.Uvarint(canon)
+		payload := append([]byte{}, canon[n:]...)
+		switch shape.HeaderWide {
+		case "header-wide-int":
+			if payload[len(payload)-1] != 0x01 {
+				panic("cargen: unexpected canonical header")
+			}
+			payload = append(payload[:len(payload)-1], 0x18, 0x01)
+		default:
+			panic("cargen: unknown HeaderWide " + shape.HeaderWide)
+		}
+		hdr.Reset()
+		var lb [binary.MaxVarintLen64]byte
+		hdr.Write(lb[:binary.PutUvarint(lb[:], uint64(len(payload)))])
+		hdr.Write(payload)
 	}
 	t.HeaderLen = uint64(hdr.Len())
 	t.Bytes = append(hdr.Bytes(), g.body.Bytes()...)
